@@ -162,7 +162,8 @@ class World:
             out.append((_socket.AddressFamily(f), _socket.SOCK_STREAM, 6, '', sa))
         if not out and fam is not None:
             raise _socket.gaierror(-9, 'Address family for hostname not supported')
-        if not out and self.hosts.get(host, {}).get('empty_is_error', True) and not answers:
+        if not out and self.hosts.get(host, {}).get('empty_is_error', True):
+            # the C library never answers with an empty list: a name without a record of the requested family is an error too
             raise _socket.gaierror(-5, 'No address associated with hostname')
         return out
 
